@@ -1,32 +1,118 @@
 package main
 
 // A browser-style POST upload (multipart/form-data) whose policy document is
-// signed (V4) with the credentials of `who`.
+// signed by the harness's own signers: V4 (HMAC-SHA256 chain over the base64
+// policy) or V2 (HMAC-SHA1 over the base64 policy), written from the AWS
+// "Authenticating Requests in Browser-Based Uploads" specifications.
 
 import (
 	"bytes"
 	"encoding/base64"
+	"fmt"
+	"mime"
 	"mime/multipart"
 	"time"
+
+	"verifharness/hx"
 )
 
-func postPolicyBody(who ident, bucket, key string, now time.Time) (string, []byte) {
-	day := now.UTC().Format("20060102")
-	cred := who.AK + "/" + day + "/" + region + "/s3/aws4_request"
-	policy := `{"expiration":"` + now.Add(time.Hour).UTC().Format(time.RFC3339) + `","conditions":[["eq","$bucket","` + bucket + `"],["starts-with","$key","up/"]]}`
-	p64 := base64.StdEncoding.EncodeToString([]byte(policy))
-	sig := v4Signature(who.SK, day, p64)
+const formBoundary = "vb"
+const formCType = "multipart/form-data; boundary=" + formBoundary
+
+type formSpec struct {
+	Kind   int    // 0 no body, 1 form without a file part, 2 form with file and signed policy
+	V2     bool   // signed the V2 way (AWSAccessKeyId / Signature fields)
+	AK     string // access key named in the form
+	Secret string // secret the policy was signed with
+	Damage string // intact, tampered (signature or policy changed after signing), expired (policy expiration passed), malformed (V4 credential without scope)
+	Tamper int
+	Key    string
+}
+
+func postPolicyBody(f formSpec, bucket string, now time.Time) []byte {
 	var buf bytes.Buffer
 	w := multipart.NewWriter(&buf)
-	w.SetBoundary("vb")
+	w.SetBoundary(formBoundary)
+	key := f.Key
+	if key == "" {
+		key = "up/k"
+	}
 	w.WriteField("key", key)
-	w.WriteField("x-amz-algorithm", "AWS4-HMAC-SHA256")
-	w.WriteField("x-amz-credential", cred)
-	w.WriteField("x-amz-date", now.UTC().Format("20060102T150405Z"))
-	w.WriteField("policy", p64)
-	w.WriteField("x-amz-signature", sig)
+	if f.Kind == 1 {
+		w.WriteField("note", "no file part")
+		w.Close()
+		return buf.Bytes()
+	}
+	day := now.UTC().Format("20060102")
+	exp := now.Add(time.Hour)
+	if f.Damage == "expired" {
+		exp = now.Add(-time.Hour)
+	}
+	policy := `{"expiration":"` + exp.UTC().Format(time.RFC3339) + `","conditions":[["eq","$bucket","` + bucket + `"],["starts-with","$key","up/"]]}`
+	p64 := base64.StdEncoding.EncodeToString([]byte(policy))
+	var sig string
+	if f.V2 {
+		sig = v2Signature(f.Secret, p64)
+	} else {
+		sig = v4Signature(f.Secret, day, p64)
+	}
+	if f.Damage == "tampered" {
+		if f.Tamper == 0 {
+			if f.V2 {
+				sig = flipFirstB64(sig)
+			} else {
+				sig = flipLast(sig)
+			}
+		} else {
+			// the policy is replaced after signing (a wider key prefix)
+			policy = `{"expiration":"` + exp.UTC().Format(time.RFC3339) + `","conditions":[["eq","$bucket","` + bucket + `"],["starts-with","$key",""]]}`
+			p64 = base64.StdEncoding.EncodeToString([]byte(policy))
+		}
+	}
+	if f.V2 {
+		w.WriteField("AWSAccessKeyId", f.AK)
+		w.WriteField("policy", p64)
+		w.WriteField("signature", sig)
+	} else {
+		cred := f.AK + "/" + day + "/" + region + "/s3/aws4_request"
+		if f.Damage == "malformed" {
+			cred = f.AK
+		}
+		w.WriteField("x-amz-algorithm", "AWS4-HMAC-SHA256")
+		w.WriteField("x-amz-credential", cred)
+		w.WriteField("x-amz-date", now.UTC().Format("20060102T150405Z"))
+		w.WriteField("policy", p64)
+		w.WriteField("x-amz-signature", sig)
+	}
 	fw, _ := w.CreateFormFile("file", "k.bin")
 	fw.Write([]byte("payload"))
 	w.Close()
-	return "multipart/form-data; boundary=vb", buf.Bytes()
+	return buf.Bytes()
+}
+
+// effectiveForm is the form state a multipart parser sees: the declared form if the
+// request's Content-Type is multipart/form-data with the body's boundary, else none.
+func effectiveForm(f formSpec, ctype string) formSpec {
+	if f.Kind == 0 {
+		return f
+	}
+	mt, params, err := mime.ParseMediaType(ctype)
+	if err != nil || (mt != "multipart/form-data" && mt != "multipart/mixed") || params["boundary"] != formBoundary {
+		return formSpec{}
+	}
+	return f
+}
+
+func coqDamage(d string) string {
+	return map[string]string{"intact": "Intact", "tampered": "Tampered", "expired": "Expired", "malformed": "Malformed", "": "Intact"}[d]
+}
+
+func coqForm(f formSpec) string {
+	switch f.Kind {
+	case 0:
+		return "NoForm"
+	case 1:
+		return "FormNoFile"
+	}
+	return fmt.Sprintf("(FormPolicy %s {| cl_ak := %s; cl_secret := %s; cl_damage := %s |})", hx.Bool(f.V2), hx.Str(f.AK), hx.Str(f.Secret), coqDamage(f.Damage))
 }
